@@ -96,6 +96,7 @@ def shrink(case, still_fails):
 
 def check(run):
     import genlib
+    genlib.validate_eam_builder(run, n=run.n(30, 300))
     genlib.validate_tabulation_objects(run, kinds=("setfl",), n=run.n(8, 60))
     genlib.validate_eam_writer(run, "setfl", n=run.n(10, 100))
     run.rule = ("tracer EAM models from one PRNG: 1..4 elements in random order (real and made-up labels), random subset of unordered pairs declared in random "
